@@ -648,7 +648,11 @@ impl Plan {
         let mut out = vec![];
         let val = |r: usize, i: usize| -> F {
             let a = &self.regions[r].assigns[i];
-            a.base + a.delta
+            match &a.how {
+                // the layouter copies the *current* instance value into the cell
+                How::FromInstance { icol, row } => self.instances[*icol][*row],
+                _ => a.base + a.delta,
+            }
         };
         for (r, rp) in self.regions.iter().enumerate() {
             for ch in &rp.checks {
@@ -668,7 +672,7 @@ impl Plan {
                         acc != val(r, *out)
                     }
                     Check::Inst { a, icol, row } => val(r, *a) != self.instances[*icol][*row],
-                    Check::Chal { a, b } => rp.assigns[*a].delta != F::ZERO || rp.assigns[*b].delta != F::ZERO,
+                    Check::Chal { a, b } => val(r, *a) != rp.assigns[*b].base || rp.assigns[*b].delta != F::ZERO,
                     Check::Lookup { inputs, any } => {
                         let tuple: Vec<F> = inputs
                             .iter()
